@@ -359,3 +359,26 @@ CLAIMS["C26"] = (
     "6/C26", TRUSTED + "; expressions containing matrix symbols are only required not to fail an assertion (their "
     "answers cannot be contradicted by a concrete matrix)",
     "TLA+ dense semantics of matrix expressions + three-valued predicate truth + TLC trace validation")
+
+CLAIMS["C17"] = (
+    "model_checking",
+    "The conventional rules are stated once, as the printer of module Syntax (precedence sum < product < unary sign "
+    "< power < atom, left associativity of + - * /, right associativity of ** and ^, where a unary sign may stand, "
+    "function call syntax); TLC prints abstract syntax trees of depth <= 3 over identifiers (with digits and "
+    "underscores), integers, floating-point literals, pi, + - * / ** unary minus and 15 function names in 32 styles "
+    "(spaces, redundant parentheses, ^ for **, leading zeros, implicit multiplication of a number and an "
+    "identifier), the classical traps (a-b-c, a/b/c, a/b*c, -x**2, 2**-x, x**y**2, ...) in every style; the parser's "
+    "result must be the very expression the library builds directly from the tree",
+    "6/C17", TRUSTED + "; only strings produced by the printer are parsed (ill-formed input belongs to C18); literals "
+    "are restricted to dyadic floating-point values so that the expected double is exact",
+    "TLA+ printer as the definition of the syntax + TLC trace validation (parse vs direct construction)")
+CLAIMS["C16"] = (
+    "model_checking",
+    "TLC enumerates expressions of the parseable fragment (23 atoms: identifiers with digits and underscores, "
+    "integers, rationals, Gaussian numbers, floats, constants, infinities, nan; arithmetic with negative and complex "
+    "coefficients, nested powers, 25 parser-known functions, relationals, And/Or/Xor/Not), commutative ones in several "
+    "operand orders; TLC validates that constructions giving the same object print to the same string and that "
+    "parse(str(e)) is the same object as e (for expressions holding floats, printed to 15 digits: not different in "
+    "value)",
+    "6/C16", TRUSTED + "; truncate and conjugate are not known to the parser and are outside the fragment",
+    "TLA+ generated fragment + TLC trace validation of the print/parse round trip")
